@@ -46,20 +46,21 @@ type fnCtx struct {
 	acOut   map[*ssa.BasicBlock]string
 	rets    []retSite
 
-	loopOrd     map[*ssa.BasicBlock]int // header -> ordinal
-	loopEntryH  map[*ssa.BasicBlock]heap
-	loopEntryAC map[*ssa.BasicBlock]string
-	loopHdrH    map[*ssa.BasicBlock]heap
-	loopMod     map[*ssa.BasicBlock][]string
-	loopNames   map[*ssa.BasicBlock]map[string]*val
-	curH        heap
-	curAC       string
-	curR        string
-	curB        *ssa.BasicBlock
+	loopOrd        map[*ssa.BasicBlock]int // header -> ordinal
+	loopEntryH     map[*ssa.BasicBlock]heap
+	loopEntryAC    map[*ssa.BasicBlock]string
+	loopHdrH       map[*ssa.BasicBlock]heap
+	loopMod        map[*ssa.BasicBlock][]string
+	loopNames      map[*ssa.BasicBlock]map[string]*val
+	loopEntryNames map[*ssa.BasicBlock]map[string]*val
+	curH           heap
+	curAC          string
+	curR           string
+	curB           *ssa.BasicBlock
 
-	locals  map[string][]localBind
-	defers  []deferred
-	mutexes map[string][2]string // key -> (ref, off) of mutexes locked/unlocked (recorded at the top-level ctx)
+	locals   map[string][]localBind
+	defers   []deferred
+	mutexes  map[string][2]string // key -> (ref, off) of mutexes locked/unlocked (recorded at the top-level ctx)
 	callPath string
 	specMode bool
 }
@@ -75,7 +76,7 @@ func (g *gen) newFnCtx(fn *ssa.Function, pfx string, depth int, parent *fnCtx) *
 	return &fnCtx{g: g, fn: fn, pfx: pfx, depth: depth, parent: parent, vals: map[ssa.Value]*val{}, mutexes: map[string][2]string{},
 		reach: map[*ssa.BasicBlock]string{}, heapOut: map[*ssa.BasicBlock]heap{}, acOut: map[*ssa.BasicBlock]string{},
 		loopOrd: map[*ssa.BasicBlock]int{}, loopEntryH: map[*ssa.BasicBlock]heap{}, loopEntryAC: map[*ssa.BasicBlock]string{},
-		loopHdrH: map[*ssa.BasicBlock]heap{}, loopMod: map[*ssa.BasicBlock][]string{}, loopNames: map[*ssa.BasicBlock]map[string]*val{},
+		loopHdrH: map[*ssa.BasicBlock]heap{}, loopMod: map[*ssa.BasicBlock][]string{}, loopNames: map[*ssa.BasicBlock]map[string]*val{}, loopEntryNames: map[*ssa.BasicBlock]map[string]*val{},
 		locals: map[string][]localBind{}}
 }
 
@@ -227,107 +228,174 @@ func loopBlocks(h *ssa.BasicBlock) map[*ssa.BasicBlock]bool {
 }
 
 // loopEffects reports whether the loop may write the heap, and the objects (by SSA base value defined outside the loop)
-// it writes directly. The result is only a *candidate* modifies set: the frame obligation on the back edge checks it.
-func (fc *fnCtx) loopEffects(h *ssa.BasicBlock) (bool, []ssa.Value, bool) {
-	body := loopBlocks(h)
-	effects := false
-	unknown := false
-	var bases []ssa.Value
-	seen := map[ssa.Value]bool{}
-	var baseOf func(v ssa.Value, depth int) ssa.Value
-	baseOf = func(v ssa.Value, depth int) ssa.Value {
-		if depth > 20 {
-			return nil
-		}
-		if in, ok := v.(ssa.Instruction); ok && in.Block() != nil && !body[in.Block()] {
-			return v
-		}
-		switch x := v.(type) {
-		case *ssa.Parameter, *ssa.FreeVar, *ssa.Global:
-			return v
-		case *ssa.FieldAddr:
-			return baseOf(x.X, depth+1)
-		case *ssa.IndexAddr:
-			return baseOf(x.X, depth+1)
-		case *ssa.Slice:
-			return baseOf(x.X, depth+1)
-		case *ssa.ChangeType:
-			return baseOf(x.X, depth+1)
-		case *ssa.Alloc, *ssa.MakeSlice:
-			return nil // allocated inside the loop: fresh, not in the frame
-		}
-		return nil
+// it writes, looking through the callees that will be inlined and through the assigns clauses of contracts.
+// The result is only a *candidate* modifies set: the frame obligation on the back edge checks it.
+type baseRes struct {
+	v       ssa.Value // outer value naming the written object, nil if none
+	fresh   bool      // allocated inside the loop
+	unknown bool
+}
+
+type writeScan struct {
+	fc         *fnCtx
+	body       map[*ssa.BasicBlock]bool
+	effects    bool
+	unknown    bool
+	bases      []ssa.Value
+	seen       map[ssa.Value]bool
+	visited    map[*ssa.Function]int
+	appendPhis map[*ssa.Phi]ssa.Value
+}
+
+func (ws *writeScan) resolve(v ssa.Value, subst map[ssa.Value]baseRes, top bool, depth int) baseRes {
+	if depth > 30 {
+		return baseRes{unknown: true}
 	}
-	note := func(addr ssa.Value) {
-		effects = true
-		switch addr.(type) {
-		case *ssa.Alloc, *ssa.MakeSlice:
-			if in := addr.(ssa.Instruction); body[in.Block()] {
-				return
-			}
-		}
-		b := baseOf(addr, 0)
-		if b == nil {
-			// may be an object allocated inside the loop or something loaded: cannot name it
-			if !isFreshInLoop(addr, body, 0) {
-				unknown = true
-			}
-			return
-		}
-		if !seen[b] {
-			seen[b] = true
-			bases = append(bases, b)
+	if r, ok := subst[v]; ok {
+		return r
+	}
+	if top {
+		if in, ok := v.(ssa.Instruction); ok && in.Block() != nil && !ws.body[in.Block()] {
+			return baseRes{v: v}
 		}
 	}
-	for b := range body {
+	switch x := v.(type) {
+	case *ssa.Parameter, *ssa.FreeVar:
+		if top {
+			return baseRes{v: v}
+		}
+		return baseRes{unknown: true}
+	case *ssa.Global:
+		return baseRes{v: v}
+	case *ssa.FieldAddr:
+		return ws.resolve(x.X, subst, top, depth+1)
+	case *ssa.IndexAddr:
+		return ws.resolve(x.X, subst, top, depth+1)
+	case *ssa.Slice:
+		return ws.resolve(x.X, subst, top, depth+1)
+	case *ssa.ChangeType:
+		return ws.resolve(x.X, subst, top, depth+1)
+	case *ssa.Phi:
+		if init, ok := ws.appendPhis[x]; ok && top {
+			return ws.resolve(init, subst, top, depth+1)
+		}
+	case *ssa.Alloc, *ssa.MakeSlice, *ssa.MakeMap, *ssa.MakeClosure, *ssa.MakeInterface:
+		return baseRes{fresh: true}
+	case *ssa.Const:
+		return baseRes{fresh: true}
+	}
+	return baseRes{unknown: true}
+}
+
+func (ws *writeScan) note(r baseRes) {
+	ws.effects = true
+	switch {
+	case r.fresh:
+	case r.v != nil:
+		if !ws.seen[r.v] {
+			ws.seen[r.v] = true
+			ws.bases = append(ws.bases, r.v)
+		}
+	default:
+		ws.unknown = true
+	}
+}
+
+func (ws *writeScan) scan(fn *ssa.Function, blocks map[*ssa.BasicBlock]bool, subst map[ssa.Value]baseRes, top bool, depth int) {
+	g := ws.fc.g
+	for _, b := range fn.Blocks {
+		if blocks != nil && !blocks[b] {
+			continue
+		}
 		for _, in := range b.Instrs {
 			switch x := in.(type) {
 			case *ssa.Store:
-				note(x.Addr)
-			case *ssa.MapUpdate:
-				effects = true
+				ws.note(ws.resolve(x.Addr, subst, top, 0))
+			case *ssa.MapUpdate, *ssa.Send, *ssa.Go:
+				ws.effects = true
+			case *ssa.Defer:
+				ws.effects = true
+				ws.unknown = true
 			case *ssa.Call:
-				if bi, ok := x.Call.Value.(*ssa.Builtin); ok {
-					if bi.Name() == "copy" {
-						note(x.Call.Args[0])
-					} else if bi.Name() == "append" {
-						effects = true
-						note(x.Call.Args[0])
+				cc := &x.Call
+				if bi, ok := cc.Value.(*ssa.Builtin); ok {
+					if bi.Name() == "copy" || bi.Name() == "append" {
+						ws.note(ws.resolve(cc.Args[0], subst, top, 0))
 					}
 					continue
 				}
-				effects = true
-				if callee, ok := x.Call.Value.(*ssa.Function); ok {
-					name := callee.String()
-					if strings.HasPrefix(name, "(encoding/binary.bigEndian).PutUint") || strings.HasPrefix(name, "(encoding/binary.littleEndian).PutUint") {
-						note(x.Call.Args[1])
-					}
+				ws.effects = true
+				callee, ok := cc.Value.(*ssa.Function)
+				if !ok || cc.IsInvoke() {
+					ws.unknown = true
+					continue
 				}
-			case *ssa.Defer, *ssa.Go, *ssa.Send:
-				effects = true
+				name := callee.String()
+				if strings.HasPrefix(name, "(encoding/binary.bigEndian).PutUint") || strings.HasPrefix(name, "(encoding/binary.littleEndian).PutUint") {
+					ws.note(ws.resolve(cc.Args[1], subst, top, 0))
+					continue
+				}
+				if strings.HasPrefix(name, "(encoding/binary.") || name == "crypto/sha256.Sum256" || strings.HasPrefix(name, "(*sync.") || pureExternal(name) ||
+					strings.HasPrefix(callee.Name(), "spec_") || callee.Name() == "verifAssume" || callee.Name() == "verifAssert" || name == "bytes.Equal" || name == "errors.Is" {
+					continue
+				}
+				var c *contract
+				if tc := g.w.trustedExt[name]; tc != nil {
+					c = tc
+				} else if mc := g.w.contractOf(callee); mc != nil && !mc.inline {
+					c = mc
+				}
+				if c != nil {
+					if c.pure || (c.hasAssigns && len(c.assigns) == 0) {
+						continue
+					}
+					if !c.hasAssigns {
+						ws.unknown = true
+						continue
+					}
+					// map assigns entries that are plain parameter names to the arguments
+					sig := callee.Signature
+					names := map[string]int{}
+					k := 0
+					if sig.Recv() != nil {
+						names[sig.Recv().Name()] = 0
+						names["self"] = 0
+						k = 1
+					}
+					for i := 0; i < sig.Params().Len(); i++ {
+						names[sig.Params().At(i).Name()] = k + i
+					}
+					for _, a := range c.assigns {
+						if i, ok := names[a]; ok && i < len(cc.Args) {
+							ws.note(ws.resolve(cc.Args[i], subst, top, 0))
+						} else {
+							ws.unknown = true
+						}
+					}
+					continue
+				}
+				if callee.Blocks != nil && depth < g.maxDepth && ws.visited[callee] < 3 && strings.HasPrefix(pkgPathOf(callee), modulePath) {
+					ws.visited[callee]++
+					sub := map[ssa.Value]baseRes{}
+					for i, p := range callee.Params {
+						if i < len(cc.Args) {
+							sub[p] = ws.resolve(cc.Args[i], subst, top, 0)
+						}
+					}
+					ws.scan(callee, nil, sub, false, depth+1)
+					ws.visited[callee]--
+					continue
+				}
+				ws.unknown = true
 			}
 		}
 	}
-	return effects, bases, unknown
 }
 
-func isFreshInLoop(v ssa.Value, body map[*ssa.BasicBlock]bool, depth int) bool {
-	if depth > 20 {
-		return false
-	}
-	switch x := v.(type) {
-	case *ssa.Alloc:
-		return body[x.Block()]
-	case *ssa.MakeSlice:
-		return body[x.Block()]
-	case *ssa.FieldAddr:
-		return isFreshInLoop(x.X, body, depth+1)
-	case *ssa.IndexAddr:
-		return isFreshInLoop(x.X, body, depth+1)
-	case *ssa.Slice:
-		return isFreshInLoop(x.X, body, depth+1)
-	}
-	return false
+func (fc *fnCtx) loopEffects(h *ssa.BasicBlock) (bool, []ssa.Value, bool) {
+	ws := &writeScan{fc: fc, body: loopBlocks(h), seen: map[ssa.Value]bool{}, visited: map[*ssa.Function]int{}, appendPhis: appendPhis(h)}
+	ws.scan(fc.fn, ws.body, map[ssa.Value]baseRes{}, true, fc.depth)
+	return ws.effects, ws.bases, ws.unknown
 }
 
 func (fc *fnCtx) computeLoopOrdinals(order []*ssa.BasicBlock) {
@@ -548,8 +616,12 @@ func (fc *fnCtx) loopHeader(b *ssa.BasicBlock, c *contract) {
 			}
 		}
 	}
+	loopACe := g.bind("ACe", "Int", fc.curAC)
+	fc.loopEntryNames[b] = entryMap
+	fc.loopEntryAC[b] = loopACe
 	for _, inv := range invs {
 		sc := fc.specCtxAt(entryMap, fc.curH)
+		sc.loopHdr = b
 		f, err := sc.boolExpr(inv.expr)
 		if err != nil {
 			fatalContract(fc.fn, "invariant", inv.expr, err)
@@ -559,7 +631,10 @@ func (fc *fnCtx) loopHeader(b *ssa.BasicBlock, c *contract) {
 	// havoc: objects existing at loop entry and not in the modifies set keep their contents (checked on the back edge);
 	// objects in the modifies set and objects allocated since are unconstrained.
 	effects, bases, _ := fc.loopEffects(b)
-	if effects {
+	if effects && g.loopHavocAll[b] {
+		// the body calls code without a frame: nothing about the heap survives the loop except what the invariants say
+		fc.havocHeap(fmt.Sprintf("loop%d", n), "", !loopTouchesLocks(b))
+	} else if effects {
 		var mod []string
 		for _, bv := range bases {
 			v, ok := fc.vals[bv]
@@ -590,7 +665,7 @@ func (fc *fnCtx) loopHeader(b *ssa.BasicBlock, c *contract) {
 			}
 		}
 		entryH := fc.curH.clone()
-		entryAC := g.bind("ACe", "Int", fc.curAC)
+		entryAC := loopACe
 		fresh := g.freshHeap(fmt.Sprintf("loop%d", n))
 		keep := fmt.Sprintf("(< r %s)", entryAC)
 		for _, m := range mod {
@@ -614,7 +689,6 @@ func (fc *fnCtx) loopHeader(b *ssa.BasicBlock, c *contract) {
 		}
 		fc.curAC = ac
 		fc.loopEntryH[b] = entryH
-		fc.loopEntryAC[b] = entryAC
 		fc.loopMod[b] = mod
 	}
 	fc.loopHdrH[b] = fc.curH.clone()
@@ -638,8 +712,28 @@ func (fc *fnCtx) loopHeader(b *ssa.BasicBlock, c *contract) {
 		lv := fc.v(lim)
 		g.assume(fmt.Sprintf("(=> %s (and (bvsle %s %s) (or (= %s %s) (bvslt %s %s))))", fc.curR, bv(64, ^uint64(0)), iv.t[0], iv.t[0], bv(64, ^uint64(0)), iv.t[0], lv.t[0]))
 	}
+	// slices grown by append only: the variable designates its entry object or one allocated since (a theorem of append)
+	for phi, init := range appendPhis(b) {
+		pv, iv := fc.vals[phi], fc.v(init)
+		if pv.k == kSlice && iv.k == kSlice {
+			g.assume(fmt.Sprintf("(=> %s (or (= %s %s) (>= %s %s)))", fc.curR, pv.t[0], iv.t[0], pv.t[0], loopACe))
+		}
+	}
+	// counting loops `for k := init; k < N; k++`: init <= k holds because k+1 cannot wrap below the guard k < N
+	for _, cp := range countingPhis(b) {
+		iv := fc.vals[cp.phi]
+		init := fc.v(cp.init)
+		if iv.k == kInt && init.k == kInt {
+			op := "bvsle"
+			if !iv.signed {
+				op = "bvule"
+			}
+			g.assume(fmt.Sprintf("(=> %s (%s %s %s))", fc.curR, op, init.t[0], iv.t[0]))
+		}
+	}
 	for _, inv := range invs {
 		sc := fc.specCtxAt(hmap, fc.curH)
+		sc.loopHdr = b
 		f, err := sc.boolExpr(inv.expr)
 		if err != nil {
 			fatalContract(fc.fn, "invariant", inv.expr, err)
@@ -698,6 +792,7 @@ func (fc *fnCtx) backEdge(b, s *ssa.BasicBlock, c *contract) {
 	}
 	for _, inv := range c.invariants[n] {
 		sc := fc.specCtxAt(bmap, fc.curH)
+		sc.loopHdr = s
 		f, err := sc.boolExpr(inv.expr)
 		if err != nil {
 			fatalContract(fc.fn, "invariant", inv.expr, err)
@@ -782,6 +877,9 @@ func (w *world) srcAt(pos token.Pos, class string) string {
 // finishTop emits the obligations of every return site of the top-level function.
 func (g *gen) finishTop(fc *fnCtx) {
 	for i, rs := range fc.rets {
+		if !g.lite {
+			break // lock balance is decided at the typestate level (lite units)
+		}
 		for _, key := range sortedKeys(fc.mutexes) {
 			m := fc.mutexes[key]
 			g.oblige(obligation{name: fmt.Sprintf("lock:%s:balance:%s@ret%d", fnKeyQ(fc.fn), key, i+1), kind: "lock", guard: rs.reach,
@@ -1014,4 +1112,135 @@ func (g *gen) ifaceObligations(fc *fnCtx) {
 			}
 		}
 	}
+}
+
+func loopTouchesLocks(h *ssa.BasicBlock) bool {
+	for b := range loopBlocks(h) {
+		for _, in := range b.Instrs {
+			var cc *ssa.CallCommon
+			switch x := in.(type) {
+			case *ssa.Call:
+				cc = &x.Call
+			case *ssa.Defer:
+				cc = &x.Call
+			}
+			if cc == nil || cc.IsInvoke() {
+				continue
+			}
+			if callee, ok := cc.Value.(*ssa.Function); ok {
+				n := callee.String()
+				if strings.HasPrefix(n, "(*sync.Mutex).") || strings.HasPrefix(n, "(*sync.RWMutex).") || (callee.Blocks != nil && touchesLocks(callee, 4, map[*ssa.Function]bool{})) {
+					return true
+				}
+			}
+		}
+	}
+	return false
+}
+
+type countingPhi struct {
+	phi  *ssa.Phi
+	init ssa.Value
+}
+
+// countingPhis recognises loop variables of the form  k := init; k < N; k++  (the header ends in `if k < N`,
+// the only other definition of k is k+1 on the back edge).
+func countingPhis(h *ssa.BasicBlock) []countingPhi {
+	ifi, ok := h.Instrs[len(h.Instrs)-1].(*ssa.If)
+	if !ok {
+		return nil
+	}
+	cmp, ok := ifi.Cond.(*ssa.BinOp)
+	if !ok || cmp.Block() != h {
+		return nil
+	}
+	var phi *ssa.Phi
+	switch cmp.Op {
+	case token.LSS:
+		phi, _ = cmp.X.(*ssa.Phi)
+	case token.GTR:
+		phi, _ = cmp.Y.(*ssa.Phi)
+	}
+	if phi == nil || phi.Block() != h || len(phi.Edges) != 2 {
+		return nil
+	}
+	// the body must be the true branch
+	body := loopBlocks(h)
+	if len(h.Succs) != 2 || !body[h.Succs[0]] || body[h.Succs[1]] {
+		return nil
+	}
+	var init ssa.Value
+	okStep := false
+	for i, p := range h.Preds {
+		e := phi.Edges[i]
+		if isBackEdge(p, h) {
+			if bo, ok := e.(*ssa.BinOp); ok && bo.Op == token.ADD && bo.X == phi {
+				if c, ok := bo.Y.(*ssa.Const); ok && c.Value != nil && c.Int64() == 1 {
+					okStep = true
+				}
+			}
+		} else {
+			init = e
+		}
+	}
+	if !okStep || init == nil {
+		return nil
+	}
+	return []countingPhi{{phi, init}}
+}
+
+// appendPhis: loop-carried slice variables whose only updates are x = append(x, ...).
+func appendPhis(h *ssa.BasicBlock) map[*ssa.Phi]ssa.Value {
+	out := map[*ssa.Phi]ssa.Value{}
+	body := loopBlocks(h)
+	for _, in := range h.Instrs {
+		phi, ok := in.(*ssa.Phi)
+		if !ok {
+			break
+		}
+		if _, isSlice := phi.Type().Underlying().(*types.Slice); !isSlice {
+			continue
+		}
+		var init ssa.Value
+		good := true
+		var isAppendOf func(v ssa.Value, depth int) bool
+		isAppendOf = func(v ssa.Value, depth int) bool {
+			if v == phi {
+				return true
+			}
+			if depth > 8 {
+				return false
+			}
+			switch x := v.(type) {
+			case *ssa.Call:
+				if bi, ok := x.Call.Value.(*ssa.Builtin); ok && bi.Name() == "append" {
+					return isAppendOf(x.Call.Args[0], depth+1)
+				}
+			case *ssa.Phi:
+				if !body[x.Block()] {
+					return false
+				}
+				for _, e := range x.Edges {
+					if !isAppendOf(e, depth+1) {
+						return false
+					}
+				}
+				return true
+			}
+			return false
+		}
+		for i, p := range h.Preds {
+			if isBackEdge(p, h) {
+				if !isAppendOf(phi.Edges[i], 0) {
+					good = false
+				}
+			} else {
+				init = phi.Edges[i]
+			}
+		}
+		if good && init != nil {
+			out[phi] = init
+		}
+	}
+	return out
 }
